@@ -33,6 +33,7 @@ func c16(c *Ctx) {
 	c16Connections(c)
 	c16Dispatch(c)
 	c16Wakeup(c)
+	c16EOFAfterDrain(c)
 }
 
 func c16TypeTables(c *Ctx) {
